@@ -28,6 +28,7 @@ RULE = ("same engine and history format as C01 (`item ctor n values ; op ; op ..
 ASSUMPTIONS = [
     "the Lean model of rlib_segtree is hand-written (recursion tree instead of the implicit array); it is tied to the code by running both on the same histories",
     "predicates depend only on the observable value of the aggregate and are monotone along the ranges they are asked about (checked per search by both sides)",
+    "floats: NaN outside every law; non-NaN bit patterns are ordered by FloatFmt.ordKey in the model (standard fact about IEEE sign-magnitude, cross-checked against the standard library's comparison on every run); Default of Min/MinAdd<f64> is f64::MAX, of Max/MaxAdd<f64> f64::MIN = -MAX (keyed_default_identity: identities on every finite element, and on -inf / +inf respectively) - that the crate's float trait constants are these is compared on every run (`const f64`, `const f32`)",
     "overflow is outside the domain (i64: magnitudes far below 2^63; narrow / unsigned element types: decided per history by the model's overflow guard, `S any`); the defaults of Min/MinAdd (<T as MinMax>::MAX) and Max/MaxAdd (MIN) are identities on every value of the element type (minmax_default_identity, for every IntTy) - that the crate's trait constants are the type's bounds is compared on every run (`const <type>`, all twelve integer types)",
 ]
 TRUSTED_EXTRA = ["harness items affHash/strCat are defined twice (Rust, Lean) and compared by the differential run"]
@@ -38,7 +39,8 @@ MANIFEST = {
              "position, lazy state and every predicate that is monotone on the actual ranges; every value shown to the predicate — by any predicate, monotone "
              "or not — is the aggregate of a range starting at l (ending at r); the searches preserve contents and well-formedness, so they can be "
              "interleaved with any history (C01). Defaults of all built-in items are proved to be identities on their domain - for Min/Max/MinAdd/MaxAdd at every integer element type, on all values "
-             "between the type's real bounds (and not beyond: min_default_needs_type_max). The "
+             "between the type's real bounds (and not beyond: min_default_needs_type_max); for element types ordered by a key (records, floats by bit pattern) "
+             "on every element between the default and the other end (keyed_default_identity; a Default above an element - MinMax::MIN = MIN_POSITIVE - is not: max_default_needs_type_min). The "
              "hand-written model is tied to rlib_segtree by a differential correspondence run on every check."),
     "note": ("Trusted: Lean kernel, axioms propext/Classical.choice/Quot.sound, the hand-written model, harness and driver plumbing. "
              "lower_bound with l >= n has no assert in the code and walks off the array: outside the property's domain, not modelled."),
